@@ -550,7 +550,10 @@ def _server():
     if _SERVER is None or _SERVER.poll() is not None:
         env = dict(os.environ)
         if "UBSAN_OPTIONS" in env:
-            env["UBSAN_OPTIONS"] = "halt_on_error=0:print_stacktrace=0"
+            # since the fix of C09-N7 (07a5612) UBSan runs in the check's halting mode again
+            # (exit 87 = a `crash:` failure); VERIF_C09_UBSAN_CONTINUE=1 collects all reports instead
+            if os.environ.get("VERIF_C09_UBSAN_CONTINUE") == "1":
+                env["UBSAN_OPTIONS"] = "halt_on_error=0:print_stacktrace=0"
             env["PYTHONMALLOC"] = "malloc"      # CPython object memory visible to ASan as well
         _SERVER = subprocess.Popen([sys.executable, "-u", "-m", "harness.props.c09", "--serve"],
                                    stdin=subprocess.PIPE, stdout=subprocess.PIPE, env=env,
@@ -2182,6 +2185,23 @@ def model_term(k, st, r, obs, case):
             # one-directional claim -- what the guard rejects, the implementation rejects
             return "verdict_implies (verdict_of (table_collection_union true %s %s %s %s)) %s" % (
                 cz(N), cz(N), _alloc(N), clist(mapping), v)
+        elif opn in ("ts.stat1", "ts.statk") and isinstance(a.get("windows"), list) and a.get("mode", "site") in ("site", "branch", "node"):
+            L = float(env["L"])
+            ws = [res_pos(x, L) for x in a["windows"]]
+            fin = sorted(set([0.0, L] + [float(w) for w in ws if math.isfinite(w)]))
+            zero = fin.index(0.0)
+            rk = {x: i - zero for i, x in enumerate(fin)}
+
+            def flt(w):
+                if math.isnan(w):
+                    return "NaN"
+                if w == float("inf"):
+                    return "PInf"
+                if w == float("-inf"):
+                    return "NInf"
+                return "(Fin %s)" % cz(rk[float(w)])
+            return ("verdict_implies (if check_windows C09_windows_reject_nan %s [%s] then VOk else VRaise) %s"
+                    % (cz(rk[L]), "; ".join(flt(w) for w in ws), v))
         elif opn == "tree.ll_map_mutations":
             g = a["g"]
             if g.get("dtype", "int8") not in ("int8", "int32") or g.get("shape2"):
@@ -2435,12 +2455,18 @@ class TsIds(Monitor):
             for w in ("vcf", "fasta", "nexus", "text", "macs"):
                 yield {"base": rng.choice(bases), "steps": [{"op": "ts.write", "args": {"what": w}}]}
             for sites in ([["0"]], [["0"], ["0"]], [["n"]], [["-1"]], [["0", "0"]], [["max"]], [[]], [["n-1", "0"]],
-                          [[], ["0"]], [["0"], []], [[], []],
+                          [[], ["0"]], [["0"], []], [[], []], [["0", "n"]], [["0", "n-1", "n"]], [["0"], ["0", "n"]],
+                          [["0", "n"], ["0"]], [["n+1"]], [["0", "max"]], [["-2"]], [["n", "n+1"]],
                           [["0"], ["n"]], [["0"], ["-1"]], [["0", "n-1"], ["n-1"]]):
                 for mode in ("site", "branch"):
                     key = "positions" if mode == "branch" else "sites"
-                    yield {"base": rng.choice(bases), "steps": [
-                        {"op": "ts.ld_matrix", "args": {key: sites, "mode": mode}}, {"op": "probe.ts", "args": {}}]}
+                    st = {"op": "ts.ld_matrix", "args": {key: sites, "mode": mode}}
+                    if mode == "site" and any(x in ("n", "n+1", "max", "-1", "-2", "min") for row in sites for x in row):
+                        st["expect"] = "raise"          # a site id outside [0, num_sites)
+                    for stat in ("r2", "D") if mode == "site" else ("r2",):
+                        st2 = json.loads(json.dumps(st))
+                        st2["args"]["stat"] = stat
+                        yield {"base": rng.choice(bases), "steps": [st2, {"op": "probe.ts", "args": {}}]}
 
 
 class Positions(Monitor):
